@@ -9,6 +9,7 @@ import (
 	"testing"
 	"time"
 
+	"github.com/cloudwego/eino/components/model"
 	"github.com/cloudwego/eino/components/tool"
 	"github.com/cloudwego/eino/compose"
 	"github.com/cloudwego/eino/flow/agent"
@@ -187,15 +188,15 @@ type agentLike interface {
 	Stream(ctx context.Context, input []*schema.Message, opts ...agent.AgentOption) (*schema.StreamReader[*schema.Message], error)
 }
 
-func callAgent(ctx context.Context, a agentLike, stream bool, user string) string {
+func callAgent(ctx context.Context, a agentLike, stream bool, user string, opts []agent.AgentOption) string {
 	in := []*schema.Message{schema.UserMessage(user)}
 	var res string
 	p := mon.Safe(func() {
 		if !stream {
-			res = msgString(a.Generate(ctx, in))
+			res = msgString(a.Generate(ctx, in, opts...))
 			return
 		}
-		sr, err := a.Stream(ctx, in)
+		sr, err := a.Stream(ctx, in, opts...)
 		if err != nil {
 			res = "error:" + err.Error()
 			return
@@ -208,7 +209,9 @@ func callAgent(ctx context.Context, a agentLike, stream bool, user string) strin
 	return res
 }
 
-func agentRounds(ctx context.Context, rep *mon.Reporter, rng *mon.Rand, cfg mon.Config, kind string, a agentLike, users func(i int) string, wit any) {
+// optsFor builds the options of one call: a long-lived base (slices with spare capacity, shared by every
+// call) plus options that carry the call's own tag.
+func agentRounds(ctx context.Context, rep *mon.Reporter, rng *mon.Rand, cfg mon.Config, kind string, a agentLike, users func(i int) string, wit any, optsFor func(user string) []agent.AgentOption) {
 	reps := cfg.Pick(5, 20)
 	for round := 0; round < reps; round++ {
 		n := []int{2, 8, 32}[rng.Intn(3)]
@@ -218,10 +221,10 @@ func agentRounds(ctx context.Context, rep *mon.Reporter, rng *mon.Rand, cfg mon.
 		for i := range us {
 			us[i] = fmt.Sprintf("r%d-%d-", round, i) + users(i)
 			streams[i] = rng.Bool()
-			alone[i] = callAgent(ctx, a, streams[i], us[i]) // what the call returns when it runs alone
+			alone[i] = callAgent(ctx, a, streams[i], us[i], optsFor(us[i])) // what the call returns when it runs alone
 		}
 		got := make([]string, n)
-		wres, dump := together(n, func(i int) { got[i] = callAgent(ctx, a, streams[i], us[i]) })
+		wres, dump := together(n, func(i int) { got[i] = callAgent(ctx, a, streams[i], us[i], optsFor(us[i])) })
 		rep.AddEvaluations(int64(2 * n))
 		rep.Count("concurrent_calls", int64(n))
 		rep.Count("agent_rounds_"+kind, 1)
@@ -265,9 +268,20 @@ func reactCase(ctx context.Context, rep *mon.Reporter, rng *mon.Rand, cfg mon.Co
 	if direct {
 		modes = append(modes, "direct")
 	}
+	// call options: none, or a shared base (spare capacity) + per-call values, for tools and for the model
+	withOpts := rng.Intn(3) > 0
+	baseTool := append(make([]tool.Option, 0, 8), toolTag("base1"), toolTag("base2"), toolTag("base3"))
+	baseModel := append(make([]model.Option, 0, 8), modelTag("mbase1"), modelTag("mbase2"), modelTag("mbase3"))
+	baseAgent := append(make([]agent.AgentOption, 0, 8), react.WithToolOptions(baseTool...), agent.WithComposeOptions(compose.WithChatModelOption(baseModel...)))
+	optsFor := func(user string) []agent.AgentOption {
+		if !withOpts {
+			return nil
+		}
+		return append(append([]agent.AgentOption(nil), baseAgent...), react.WithToolOptions(toolTag("T@"+user)), agent.WithComposeOptions(compose.WithChatModelOption(modelTag("M@"+user))))
+	}
 	agentRounds(ctx, rep, rng, cfg, "react", a, func(i int) string {
 		return fmt.Sprintf("t%d|%d|%s", i, rng.Intn(4), modes[rng.Intn(len(modes))])
-	}, map[string]any{"agent": "react", "return_directly": direct})
+	}, map[string]any{"agent": "react", "return_directly": direct, "options": withOpts}, optsFor)
 }
 
 func hostCase(ctx context.Context, rep *mon.Reporter, rng *mon.Rand, cfg mon.Config) {
@@ -283,7 +297,16 @@ func hostCase(ctx context.Context, rep *mon.Reporter, rng *mon.Rand, cfg mon.Con
 		return
 	}
 	modes := []string{"direct-answer", "handoff:alpha", "handoff:beta"}
+	withOpts := rng.Intn(3) > 0
+	baseModel := append(make([]model.Option, 0, 8), modelTag("mbase1"), modelTag("mbase2"), modelTag("mbase3"))
+	baseAgent := append(make([]agent.AgentOption, 0, 8), agent.WithComposeOptions(compose.WithChatModelOption(baseModel...)))
+	optsFor := func(user string) []agent.AgentOption {
+		if !withOpts {
+			return nil
+		}
+		return append(append([]agent.AgentOption(nil), baseAgent...), agent.WithComposeOptions(compose.WithChatModelOption(modelTag("M@"+user))))
+	}
 	agentRounds(ctx, rep, rng, cfg, "host", ma, func(i int) string {
 		return fmt.Sprintf("t%d|0|%s", i, modes[rng.Intn(len(modes))])
-	}, map[string]any{"agent": "host-multi-agent"})
+	}, map[string]any{"agent": "host-multi-agent", "options": withOpts}, optsFor)
 }
